@@ -240,7 +240,8 @@ namespace Givaro
     inline std::ostream&
     ModularBalanced<double>::write(std::ostream& os, const Element& x) const
     {
-        return os << x;
+        // as an integer: a double is printed with 6 significant digits (1234567 -> 1.23457e+06)
+        return os << static_cast<int64_t>(x);
     }
 
     inline std::istream&
